@@ -65,6 +65,7 @@ func genC23(seed uint64) *Plan {
 		hold = 0 // no hold and keepalive timers once the OPENs are exchanged (RFC 4271 4.2 / 8.2.2)
 	}
 	pc.PeerHold, pc.DUTHold = hold, hold
+	pc.IPv6 = r.Chance(0.4) // a second address family: both are attached and detached together
 	pc.Import = pick(r, []*PolicySpec{AcceptAll(), AcceptAll(), {Terms: []TermSpec{{Actions: []ActionSpec{{Kind: "lp", V: 150}}}, {Actions: []ActionSpec{{Kind: "accept"}}}}}})
 	pl.Peers = []PeerCfg{pc}
 	tag := uint32(20000)
@@ -353,6 +354,11 @@ func (o *c23Oracle) AfterStep(w *World, i int, s *Step) {
 	for _, f := range w.DUT.FSMs(p) {
 		if f.RibsInitialized != (f.State == "established") {
 			w.Env.Violate("C23", "attached_iff_established", "trace %s: an FSM in state %s has routes attached=%v", strings.Join(o.trace, " ; "), f.State, f.RibsInitialized)
+		}
+		for _, fam := range f.Families {
+			if fam.Initialized != (f.State == "established") {
+				w.Env.Violate("C23", "family_attached_iff_established", "trace %s: an FSM in state %s has the RIBs of address family %d attached=%v", strings.Join(o.trace, " ; "), f.State, fam.AFI, fam.Initialized)
+			}
 		}
 	}
 	_ = attached
